@@ -2,12 +2,13 @@
 import warnings
 from hypothesis import strategies as st
 
-from amaranth.hdl import Module, ClockDomain, Signal, Cat, Shape, ResetSignal, Fragment
+from amaranth.hdl import Module, ClockDomain, Signal, Cat, Shape, ResetSignal, Fragment, DomainRenamer
 from amaranth.lib.cdc import FFSynchronizer, AsyncFFSynchronizer, ResetSynchronizer, PulseSynchronizer
 from amaranth.sim import Simulator
 
 from vlib.runner import Part, Mismatch, HarnessError
 from vlib.gen_expr import INT, BOOL, PICK
+from vlib import simorder
 
 PID = "C17"
 LEVEL = "exploration"
@@ -204,7 +205,9 @@ def ff_body(ctx, case):
 def async_cases(draw, nev):
     cfg = {"kind": PICK(draw, ["AsyncFFSynchronizer", "AsyncFFSynchronizer", "ResetSynchronizer"]),
            "stages": draw(INT(2, 5)), "async_edge": PICK(draw, ["pos", "neg"]), "o_domain": PICK(draw, ["sync", "out"]),
-           "i_init": draw(INT(0, 1)), "elaborations": 2 if draw(INT(0, 2)) == 0 else 1}
+           "i_init": draw(INT(0, 1)), "elaborations": 2 if draw(INT(0, 2)) == 0 else 1,
+           # another synchroniser of the same kind in the design (each has a private clock domain of the same name)
+           "decoy": PICK(draw, [None, None, "before", "after"])}
     if cfg["kind"] == "ResetSynchronizer":
         cfg["async_edge"] = "pos"
 
@@ -224,12 +227,17 @@ def async_body(ctx, case):
         xcd = ClockDomain("other")
         m.domains += [ocd, xcd]
         i = Signal(1, init=case["i_init"], name="i")
+        di, do = Signal(1, name="decoy_i"), Signal(1, name="decoy_o")
+        if case.get("decoy") == "before":
+            m.submodules.decoy = AsyncFFSynchronizer(di, do, o_domain="other", stages=2)
         if case["kind"] == "AsyncFFSynchronizer":
             o = Signal(1, name="o")
             m.submodules.dut = AsyncFFSynchronizer(i, o, o_domain=on, stages=stages, async_edge=case["async_edge"])
         else:
             o = ocd.rst
             m.submodules.dut = ResetSynchronizer(i, domain=on, stages=stages)
+        if case.get("decoy") == "after":
+            m.submodules.decoy = AsyncFFSynchronizer(di, do, o_domain="other", stages=2)
         dummy = Signal(4)
         m.d.other += dummy.eq(dummy + 1)
         for _ in range(case.get("elaborations", 1) - 1):
@@ -281,6 +289,7 @@ def async_body(ctx, case):
     keys = ["async:" + k for k, v in st_.items() if v] + ["async:" + case["kind"], f"async:stages{stages}",
                                                          "async:edge-" + case["async_edge"]]
     if case.get("elaborations", 1) > 1: keys.append("async:elaborated-before-edge-" + case["async_edge"])
+    if case.get("decoy"): keys.append("async:second-synchroniser-" + case["decoy"])
     ctx.note(case, st_["released"] and st_["coincident"], *keys, evals=len(case["events"]))
 
 
@@ -309,7 +318,8 @@ def pulse_cases(draw, nev):
             i = 1 if want else 0
             pending = bool(i)                  # the coincident O-edge sampled the older pulse, not this one
         evs.append([kind, i])
-    return {"stages": stages, "same": same, "events": evs, "elaborations": 2 if draw(INT(0, 4)) == 0 else 1}
+    return {"stages": stages, "same": same, "events": evs, "elaborations": 2 if draw(INT(0, 4)) == 0 else 1,
+            "merged_by_renamer": same and draw(BOOL)}
 
 
 def pulse_body(ctx, case):
@@ -320,7 +330,11 @@ def pulse_body(ctx, case):
         if case["same"]:
             icd = ocd = ClockDomain("sync", reset_less=True)
             m.domains += icd
-            dut = PulseSynchronizer("sync", "sync", stages=stages)
+            if case.get("merged_by_renamer"):
+                # built for two domains, both renamed onto one
+                dut = DomainRenamer({"w": "sync", "r": "sync"})(PulseSynchronizer("w", "r", stages=stages))
+            else:
+                dut = PulseSynchronizer("sync", "sync", stages=stages)
         else:
             icd, ocd = ClockDomain("inp", reset_less=True), ClockDomain("outp", reset_less=True)
             m.domains += [icd, ocd]
@@ -388,6 +402,7 @@ def pulse_body(ctx, case):
         raise fail[0]
     keys = ["pulse:" + k for k, v in st_.items() if v] + [f"pulse:stages{stages}"]
     if case["same"]: keys.append("pulse:same-domain")
+    if case.get("merged_by_renamer"): keys.append("pulse:two-domains-renamed-onto-one")
     if cnt["in"] >= 2: keys.append("pulse:several-pulses")
     ctx.note(case, st_["coincident"] and st_["i_burst"] and st_["o_burst"] and cnt["in"] >= 2, *keys,
              evals=len(case["events"]))
@@ -395,6 +410,7 @@ def pulse_body(ctx, case):
 
 def parts(tier):
     q = tier == "quick"
+    simorder.install()          # a fixed order of ready processes, so that a failure reproduces
     n = 60 if q else 200
     return [
         Part("ff", "hyp", strategy=ff_cases(n), body=ff_body, n=80 if q else 1500),
@@ -409,4 +425,5 @@ REQUIRED = ["ff:coincident", "ff:o_changed", "ff:in_burst", "ff:o_burst", "ff:re
             "async:AsyncFFSynchronizer", "async:edge-neg", "async:stages5", "async:assert_between_edges",
             "pulse:coincident", "pulse:i_burst", "pulse:o_burst", "pulse:back_to_back", "pulse:same-domain",
             "pulse:several-pulses", "pulse:stages4", "ff:output-wider-than-input", "ff:negative-value-into-wider-output",
-            "ff:elaborated-before", "async:elaborated-before-edge-neg", "async:elaborated-before-edge-pos"]
+            "ff:elaborated-before", "async:elaborated-before-edge-neg", "async:elaborated-before-edge-pos",
+            "async:second-synchroniser-before", "async:second-synchroniser-after", "pulse:two-domains-renamed-onto-one"]
